@@ -198,3 +198,39 @@ class Alias:
                 return f(*a, **kw)
             return g
         return f
+
+
+class Only:
+    """run another property's rule function but keep only selected rules, reported under this property's ids (shared clauses): `mapping`
+    = {source rule id: own rule id}; instances of every other rule are dropped, and so are the keys in `skip_keys` (clauses whose open
+    findings belong to the owning property only)."""
+
+    def __init__(self, ck, mapping, skip_keys=()):
+        self.ck, self.mapping, self.skip_keys = ck, dict(mapping), tuple(skip_keys)
+
+    def _map(self, rule):
+        base = rule.split("@")[0].split("-")[0] if rule not in self.mapping else rule
+        for src, dst in self.mapping.items():
+            if rule == src or rule.startswith(src + "@") or rule.startswith(src + "-") or rule.startswith(src + ":") or base == src:
+                return dst + rule[len(src):]
+        return None
+
+    def __getattr__(self, name):
+        f = getattr(self.ck, name)
+        if name in ("ok", "bad", "check", "floor", "anchor_lost"):
+            def g(*a, **kw):
+                a = list(a)
+                idx = 1 if name == "check" else 0
+                rule = a[idx]
+                new = self._map(rule)
+                if new is None:
+                    return True
+                key = a[idx + 1] if name in ("ok", "bad", "check") and len(a) > idx + 1 else ""
+                if any(("%s:%s" % (rule, key)).startswith(s) for s in self.skip_keys):
+                    return True
+                a[idx] = new
+                return f(*a, **kw)
+            return g
+        if name == "rule":
+            return lambda *a, **kw: None
+        return f
